@@ -7,6 +7,7 @@ CONSTANTS
   MaxLen = 3
   WithBad = TRUE
   QueryEdges = TRUE
+  HostBits = "all"
   Canon = FALSE
 INIT Init
 NEXT Next
